@@ -1,0 +1,64 @@
+//! Verification hooks (feature `verif-hooks`, default off, add-only).
+//!
+//! A thread-local log of what `vanishing::verifier::PartiallyEvaluated::verify` folds: every
+//! identity value yielded by the `expressions` iterator (in order), and the `y`, `xn` and
+//! resulting `expected_h_eval` as seen there. One [`IdentityFold`] record is appended per call
+//! (that is, per call of `verify_algebraic_constraints` / `prepare` on this thread). Nothing is
+//! read back by the verifier: the log only observes.
+
+use std::cell::RefCell;
+
+use ff::PrimeField;
+
+/// One call of `PartiallyEvaluated::verify`. Field elements are stored as the bytes of their
+/// canonical representation (`PrimeField::to_repr`).
+#[derive(Clone, Debug, Default, PartialEq, Eq)]
+pub struct IdentityFold {
+    /// The identity values in the order in which they were folded.
+    pub values: Vec<Vec<u8>>,
+    /// The challenge `y` used by the fold.
+    pub y: Vec<u8>,
+    /// `x^n` as passed to `verify`.
+    pub xn: Vec<u8>,
+    /// The resulting `expected_h_eval`.
+    pub expected_h_eval: Vec<u8>,
+}
+
+thread_local! {
+    static CURRENT: RefCell<Vec<Vec<u8>>> = const { RefCell::new(Vec::new()) };
+    static LOG: RefCell<Vec<IdentityFold>> = const { RefCell::new(Vec::new()) };
+}
+
+/// Empties the log of this thread.
+pub fn clear_identity_log() {
+    CURRENT.with(|c| c.borrow_mut().clear());
+    LOG.with(|l| l.borrow_mut().clear());
+}
+
+/// Removes and returns the records logged on this thread since the last clear/take.
+pub fn take_identity_log() -> Vec<IdentityFold> {
+    CURRENT.with(|c| c.borrow_mut().clear());
+    LOG.with(|l| std::mem::take(&mut *l.borrow_mut()))
+}
+
+fn repr<F: PrimeField>(f: &F) -> Vec<u8> {
+    f.to_repr().as_ref().to_vec()
+}
+
+/// Called for every identity value as the fold consumes it.
+pub(crate) fn on_identity_value<F: PrimeField>(v: &F) {
+    CURRENT.with(|c| c.borrow_mut().push(repr(v)));
+}
+
+/// Called once the fold is complete.
+pub(crate) fn on_fold_done<F: PrimeField>(y: &F, xn: &F, expected_h_eval: &F) {
+    let values = CURRENT.with(|c| std::mem::take(&mut *c.borrow_mut()));
+    LOG.with(|l| {
+        l.borrow_mut().push(IdentityFold {
+            values,
+            y: repr(y),
+            xn: repr(xn),
+            expected_h_eval: repr(expected_h_eval),
+        })
+    });
+}
